@@ -367,6 +367,13 @@ impl Ctrl {
         if t != usize::MAX && t < g.actors.len() && !g.actors[t].is_co {
             return Some(t);
         }
+        if cat == "cancel" {
+            // `cancel.cancel()` called inline by the kernel side of a yield (the re-check in subscribe): a step of the
+            // kernel slot at work on this thread
+            if let Some((k, _)) = g.kthread.get(&my_tid()).copied() {
+                return Some(k);
+            }
+        }
         if cat == "timer" {
             return g.timer_actor;
         }
@@ -527,6 +534,10 @@ impl Ctrl {
             .unwrap_or_else(|p| p.into_inner());
     }
 
+    pub fn timer_is_held(&self) -> bool {
+        Self::timer_held(&self.lock())
+    }
+
     pub fn ext_pending(&self, delta: isize) {
         let mut g = self.lock();
         g.ext_pending = (g.ext_pending as isize + delta).max(0) as usize;
@@ -603,6 +614,11 @@ impl Ctrl {
         assert!(a.st == ASt::AtPoint);
         a.go = true;
         a.st = ASt::Running;
+        if a.kernel_of == Some(actor) {
+            // a passive actor is at work from this moment on, not only once its thread has woken up (else the
+            // driver could see it "settled" in between and let somebody else overtake its step)
+            a.passive_busy = true;
+        }
         a.steps += 1;
         let p = a.at.take().unwrap();
         g.trace.push(Event { actor, site: p.site, obj: p.obj, a: p.a, b: p.b });
